@@ -226,6 +226,10 @@ class NoteContainer(object):
         note's name. If no specific octave is given, the note gets removed
         in every octave.
         """
+        if isinstance(note, six.string_types) and "-" in note:
+            # A name that carries its octave, as add_note accepts it
+            parsed = Note(note)
+            (note, octave) = (parsed.name, parsed.octave)
         res = []
         for x in self.notes:
             if isinstance(note, six.string_types):
@@ -361,6 +365,12 @@ class NoteContainer(object):
         return len(self.notes)
 
     def __contains__(self, item):
+        if isinstance(item, six.string_types):
+            # A bare name is held in any octave; a name with its octave is
+            # compared as the note it spells
+            if "-" in item:
+                return Note(item) in self.notes
+            return item in self.get_note_names()
         return item in self.notes
 
     def __eq__(self, other):
